@@ -939,3 +939,151 @@ Section Pixel.
         split; [reflexivity|]. split; [reflexivity|]. split; [exact EX|]. split; [exact G | exact C].
   Qed.
 End Pixel.
+
+(* ================================================================ all pixels, any number of steps *)
+
+Section Steps.
+  Variable K : consts.
+  Hypothesis KW : consts_wf K = true.
+  Variables (m : measure) (dmin dmax : Q) (s : Z).
+  Hypothesis Hs : (0 < s)%Z.
+
+  (* what every legal pipeline hands to the step (C04's invariant): one cost per sample, and a valid
+     pixel carries a number of the interval -- ANY number: a sample after winner-takes-all, anything
+     after a filter, an interpolating validation or an earlier refinement *)
+  Definition pixel_ok (p : pixel) : Prop :=
+    cv_fits dmin dmax s (px_cv p)
+    /\ (is_valid K (px_mask p) -> exists d, px_disp p = Some d /\ in_interval dmin dmax d).
+
+  (* a pixel's flags before and after: bits other than bit 3 identical, bit 3 never cleared,
+     validity unchanged *)
+  Definition flags_kept (mask mask' : Z) : Prop :=
+    other_bits mask' = other_bits mask
+    /\ (Z.testbit mask 3 = true -> Z.testbit mask' 3 = true)
+    /\ Z.land mask' (k_invalid K) = Z.land mask (k_invalid K).
+
+  Lemma flags_kept_trans a b c : flags_kept a b -> flags_kept b c -> flags_kept a c.
+  Proof.
+    intros (A1 & A2 & A3) (B1 & B2 & B3). repeat split.
+    - congruence.
+    - auto.
+    - congruence.
+  Qed.
+
+  Definition out_mask (t : option Q * option Q * Z) : Z := snd t.
+
+  Lemma refine_map_ok me px : Forall pixel_ok px ->
+    exists l, refine_map K me m dmin dmax s px = IOk l
+      /\ Forall pixel_ok (reload px l)
+      /\ Forall2 (fun p t => flags_kept (px_mask p) (out_mask t)) px l.
+  Proof.
+    induction 1 as [|p r [F H] _ IH].
+    - exists []. repeat split; constructor.
+    - destruct IH as (l & E & OK & FL).
+      destruct (pixel_total K KW me m dmin dmax s Hs (px_cv p) (px_disp p) (px_mask p) F H) as (d' & c' & mask' & R).
+      exists ((d', c', mask') :: l). cbn [refine_map]. rewrite R, E.
+      pose proof (pixel_bits K KW me m dmin dmax s _ _ _ _ _ _ R) as B.
+      apply (bits_of_step K KW) in B.
+      split; [reflexivity|]. split.
+      + cbn. constructor; [|exact OK]. split; [exact F|]. cbn [px_mask px_disp].
+        intro V. unfold is_valid in V. destruct B as (_ & _ & B3). rewrite B3 in V.
+        destruct (H V) as (d & Ed & I). rewrite Ed in R.
+        destruct (pixel_props K KW me m dmin dmax s Hs _ _ _ _ V F I R) as (d'' & c'' & mask'' & R' & I' & _).
+        inversion R'. exists d''. split; [reflexivity | exact I'].
+      + constructor; [exact B | exact FL].
+  Qed.
+
+  Lemma flags_compose px : forall l1 l,
+    Forall2 (fun p t => flags_kept (px_mask p) (out_mask t)) px l1 ->
+    Forall2 (fun p t => flags_kept (px_mask p) (out_mask t)) (reload px l1) l ->
+    Forall2 (fun p t => flags_kept (px_mask p) (out_mask t)) px l /\ reload (reload px l1) l = reload px l.
+  Proof.
+    induction px as [|p r IH]; intros l1 l A B.
+    - inversion A; subst. cbn in B. inversion B; subst. split; [constructor | reflexivity].
+    - inversion A as [|? t1 ? l1' A1 A2]; subst. cbn in B. destruct t1 as [[d1 c1] k1]. cbn in B.
+      inversion B as [|? t ? l' B1 B2]; subst. destruct (IH l1' l' A2 B2) as [C D].
+      split.
+      + constructor; [|exact C]. cbn in B1. unfold out_mask in *. cbn in A1.
+        eapply flags_kept_trans; eassumption.
+      + destruct t as [[d2 c2] k2]. cbn. f_equal. exact D.
+  Qed.
+
+  (* any pipeline segment refinement, refinement.1, ... (methods mixed at will) on the same cost
+     volume: never an exception, never a read outside the cost row; whatever the number of steps no
+     bit other than bit 3 changes, bit 3 is never cleared (a second step does not turn 8 into 16),
+     and every valid pixel still carries a disparity of its interval *)
+  Lemma refine_steps_ok mes : forall px last, Forall pixel_ok px ->
+    exists l, refine_steps K mes m dmin dmax s px last = IOk l
+      /\ ((mes = [] /\ l = last)
+          \/ (Forall2 (fun p t => flags_kept (px_mask p) (out_mask t)) px l /\ Forall pixel_ok (reload px l))).
+  Proof.
+    induction mes as [|me r IH]; intros px last OK.
+    - exists last. split; [reflexivity|]. left. split; reflexivity.
+    - destruct (refine_map_ok me px OK) as (l1 & E & OK1 & FL1).
+      destruct (IH (reload px l1) l1 OK1) as (l & E2 & D).
+      exists l. cbn [refine_steps]. rewrite E. split; [exact E2|]. right.
+      destruct D as [[_ D]|[D1 D2]].
+      + subst l. split; assumption.
+      + destruct (flags_compose px l1 l FL1 D1) as [C R]. split; [exact C|]. rewrite <- R. exact D2.
+  Qed.
+End Steps.
+
+(* on the sampling grid, "less than a whole sample from an end" is "on an end" *)
+Lemma inject_Z_lt1 z : inject_Z z < 1 <-> (z < 1)%Z.
+Proof. unfold Qlt, inject_Z. cbn. lia. Qed.
+
+Lemma near_end_on_grid dmin dmax s : (0 < s)%Z ->
+  forall k, inject_Z k == (dmax - dmin) * inject_Z s ->
+  forall i, (0 <= i <= k)%Z ->
+  (near_end dmin dmax s (dmin + inject_Z i / inject_Z s) <-> (i = 0 \/ i = k)%Z).
+Proof.
+  intros Hs k Hk i Hi. pose proof (inject_Z_pos s Hs) as Ps. unfold near_end.
+  assert (A : (dmin + inject_Z i / inject_Z s - dmin) * inject_Z s == inject_Z i) by (field; lra).
+  assert (B : (dmax - (dmin + inject_Z i / inject_Z s)) * inject_Z s == inject_Z (k - i)).
+  { unfold Z.sub. rewrite inject_Z_plus, inject_Z_opp, Hk. field. lra. }
+  rewrite A, B, !inject_Z_lt1. lia.
+Qed.
+
+(* ================================================================ regression witnesses
+   The three defects this property exposed, on the models of the code AS FOUND
+   ([loop_pixel_before], [quadratic_before]) and on the model of the repaired code. *)
+
+Definition K0 : consts := mkK 963 8.
+Definition opt (l : list Z) : list (option Q) := map (fun z => Some (inject_Z z)) l.
+
+(* D3 (fix cdccf68): a pixel on dmin, refinement twice: 0 -> 8 -> 16 with `+=`; 0 -> 8 -> 8 with `|=` *)
+Example D3_before :
+  loop_pixel_before K0 Vfit MMin (-2) 2 1 (opt [1;2;3;4;5]%Z) (Some (-2)) 0 = POk (Some (-2)) (Some 1) 8
+  /\ loop_pixel_before K0 Vfit MMin (-2) 2 1 (opt [1;2;3;4;5]%Z) (Some (-2)) 8 = POk (Some (-2)) (Some 1) 16.
+Proof. split; vm_compute; reflexivity. Qed.
+Example D3_after :
+  loop_pixel K0 Vfit MMin (-2) 2 1 (opt [1;2;3;4;5]%Z) (Some (-2)) 0 = POk (Some (-2)) (Some 1) 8
+  /\ loop_pixel K0 Vfit MMin (-2) 2 1 (opt [1;2;3;4;5]%Z) (Some (-2)) 8 = POk (Some (-2)) (Some 1) 8.
+Proof. split; vm_compute; reflexivity. Qed.
+
+(* D4 (fix bda49f0): costs [5,2,2,2,7], disparity 0 as left by a median filter, quadratic *)
+Example D4_before :
+  loop_pixel_before K0 Quadratic MMin (-2) 2 1 (opt [5;2;2;2;7]%Z) (Some 0) 0 = PRaise.
+Proof. vm_compute; reflexivity. Qed.
+Example D4_after :
+  loop_pixel K0 Quadratic MMin (-2) 2 1 (opt [5;2;2;2;7]%Z) (Some 0) 0 = POk (Some 0) (Some 2) 0.
+Proof. vm_compute; reflexivity. Qed.
+
+(* D13 (fix cc4b5f5): off-grid disparity -7/4 within one sample of dmin = -2: index -1 reads the cost of
+   dmax (2), the triple (2,1,5) looks like a minimum and the pixel is moved to -17/8 < dmin *)
+Example D13_before_dmin :
+  loop_pixel_before K0 Vfit MMin (-2) 2 1 (opt [1;5;5;5;2]%Z) (Some (-7 # 4)) 0
+  = POk (Some (-17 # 8)) (Some (-1 # 2)) 0.
+Proof. vm_compute; reflexivity. Qed.
+Example D13_after_dmin :
+  loop_pixel K0 Vfit MMin (-2) 2 1 (opt [1;5;5;5;2]%Z) (Some (-7 # 4)) 0 = POk (Some (-7 # 4)) (Some 1) 8.
+Proof. vm_compute; reflexivity. Qed.
+(* ... and its mirror image: 7/4 is pushed above dmax = 2, and the NEXT step reads past the cost row *)
+Example D13_before_dmax :
+  loop_pixel_before K0 Vfit MMin (-2) 2 1 (opt [9;9;5;1;2]%Z) (Some (7 # 4)) 0
+  = POk (Some (17 # 8)) (Some (-1 # 2)) 0
+  /\ loop_pixel_before K0 Vfit MMin (-2) 2 1 (opt [9;9;5;1;2]%Z) (Some (17 # 8)) 0 = POut.
+Proof. split; vm_compute; reflexivity. Qed.
+Example D13_after_dmax :
+  loop_pixel K0 Vfit MMin (-2) 2 1 (opt [9;9;5;1;2]%Z) (Some (7 # 4)) 0 = POk (Some (7 # 4)) (Some 1) 8.
+Proof. vm_compute; reflexivity. Qed.
